@@ -280,15 +280,32 @@ impl SpanningTree {
         split_point: BlockHeight,
         force_rescans: bool,
     ) -> Self {
-        let (l_insert, r_insert) = to_insert
-            .split_at(split_point)
-            .expect("Split point is within the range of to_insert");
-        let left = Box::new(left.insert(l_insert, force_rescans));
-        let right = Box::new(right.insert(r_insert, force_rescans));
-        SpanningTree::Parent {
-            span: left.span().start..right.span().end,
-            left,
-            right,
+        match to_insert.split_at(split_point) {
+            Some((l_insert, r_insert)) => {
+                let left = Box::new(left.insert(l_insert, force_rescans));
+                let right = Box::new(right.insert(r_insert, force_rescans));
+                SpanningTree::Parent {
+                    span: left.span().start..right.span().end,
+                    left,
+                    right,
+                }
+            }
+            // The split point coincides with an end of `to_insert`. This occurs when the child
+            // on that side of the partition point spans an empty range (a zero-length range was
+            // inserted at the edge of the tree), so the whole of `to_insert` belongs to the
+            // other child.
+            None if split_point <= to_insert.block_range().start => Self::from_insert(
+                Box::new(left),
+                Box::new(right),
+                to_insert,
+                Insert::right(force_rescans),
+            ),
+            None => Self::from_insert(
+                Box::new(left),
+                Box::new(right),
+                to_insert,
+                Insert::left(force_rescans),
+            ),
         }
     }
 
